@@ -18,6 +18,11 @@ for i in sorted(os.listdir(outdir)):
     patch = os.path.join(d, 'patch.diff'); demo = os.path.join(d, 'demo_test.go')
     if not (os.path.exists(patch) and os.path.exists(demo)):
         print(prop, i, 'INCOMPLETE'); continue
+    if sys.argv[1] == 'auto':
+        nt = os.path.join(d, 'notes.md')
+        mm = re.search(r'property:\s*(C\d\d)', open(nt).read()) if os.path.exists(nt) else None
+        if not mm: print('auto', i, 'REJECT: no property line in notes.md'); continue
+        prop = mm.group(1)
     first = open(demo).readline()
     m = re.search(r'dir:\s*(\S+)', first)
     sub = m.group(1) if m else '.'
